@@ -964,6 +964,22 @@ def python_traps(ctx, relpaths):
                     for side in [c.left] + list(c.comparators):
                         if isinstance(side, ast.Constant) and isinstance(side.value, (int, str, bytes)) and not isinstance(side.value, bool):
                             bad.append((c, f"identity comparison with the literal {side.value!r}"))
+            # a name that is neither a parameter nor a local of the function and denotes a plain function of the module, used as an
+            # object with data attributes / methods (<function>.hex(), <function>[i]): the name of a parameter or local that was
+            # renamed everywhere but here now resolves to the module-level function of the same name
+            bound_ = {a_.arg for a_ in ast.walk(f.node) if isinstance(a_, ast.arg)} | {
+                x_.id for x_ in ast.walk(f.node) if isinstance(x_, ast.Name) and isinstance(x_.ctx, (ast.Store, ast.Del))} | {
+                h_.name for h_ in ast.walk(f.node) if isinstance(h_, ast.ExceptHandler) and h_.name} | {
+                al_.asname or al_.name.split(".")[0] for i_ in ast.walk(f.node) if isinstance(i_, (ast.Import, ast.ImportFrom)) for al_ in i_.names}
+            for x_ in ast.walk(f.node):
+                tgt_ = x_.value if isinstance(x_, (ast.Attribute, ast.Subscript)) and isinstance(x_.value, ast.Name) else None
+                if tgt_ is None or tgt_.id in bound_ or tgt_.id not in m.functions or tgt_.id in m.classes:
+                    continue
+                if isinstance(x_, ast.Attribute) and (x_.attr.startswith("__") or x_.attr in ("cache_clear", "cache_info", "__wrapped__")):
+                    continue
+                if m.functions[tgt_.id].decorators:
+                    continue  # a decorated function may be any object
+                bad.append((x_, f"{ast.unparse(x_)[:40]}: {tgt_.id} is the module-level function {tgt_.id}() here, not a value (a renamed parameter / local left behind?)"))
             if bad:
                 for node, what in bad:
                     R.fail(rid, f"{ctx.fq(f)}: {what}", mod=m, node=node, function=ctx.fq(f), expected="the value is computed once into a list / compared with ==",
